@@ -6,7 +6,6 @@ package c16
 import (
 	"context"
 	"fmt"
-	"math"
 	"math/rand"
 	"runtime"
 	"sync"
@@ -40,7 +39,7 @@ func racePart(run *vkit.Run) {
 		defer cancel()
 		mn, hs, err := newNet(3)
 		if err != nil {
-			run.Count("harness_errors", 1)
+			herr(run, "race:1")
 			return
 		}
 		defer mn.Close()
@@ -48,34 +47,52 @@ func racePart(run *vkit.Run) {
 		if rng.Intn(4) == 0 {
 			s0 = 0
 		}
-		cs, err := newStore(ctx, ch, s0)
+		tokens := make(chan struct{}, length+8)
+		var hookOn atomic.Bool
+		// every datastore read of the serving store lets the putter advance by one certificate
+		// and yields, so Puts land between the server's Latest() and its range reads
+		cs, err := newStoreHook(ctx, ch, s0, func() {
+			if !hookOn.Load() {
+				return
+			}
+			select {
+			case tokens <- struct{}{}:
+			default:
+			}
+			runtime.Gosched()
+			runtime.Gosched()
+		})
 		if err != nil {
-			run.Count("harness_errors", 1)
+			herr(run, "race:2")
 			return
 		}
-		srv := &certexchange.Server{NetworkName: netName, Host: hs[0], Store: cs}
+		cut := &pollCut{from: hs[2].ID()}
+		srv := &certexchange.Server{NetworkName: netName, Host: countingHost{Host: hs[0], onStream: cut.onStream}, Store: cs}
 		if err := srv.Start(ctx); err != nil {
-			run.Count("harness_errors", 1)
+			herr(run, "race:3")
 			return
 		}
 		defer srv.Stop(context.Background()) //nolint:errcheck
 		p0 := rng.Intn(5)
+		if first != 0 && p0 == 0 {
+			p0 = 1 // NewPoller cannot be constructed over an empty store whose first instance is not 0
+		}
 		pstore, err := newStore(ctx, ch, p0)
 		if err != nil {
-			run.Count("harness_errors", 1)
+			herr(run, "race:4")
 			return
 		}
 		poller, err := polling.NewPoller(ctx, &certexchange.Client{Host: hs[2], NetworkName: netName}, pstore, vsig.Backend{})
 		if err != nil {
-			run.Count("harness_errors", 1)
+			herr(run, "race:5")
 			return
 		}
 
 		var started, done atomic.Int64 // server-store puts started / completed (counts of certificates in store)
 		started.Store(int64(s0))
 		done.Store(int64(s0))
-		tokens := make(chan struct{}, length+8)
 		var wg sync.WaitGroup
+		hookOn.Store(true)
 		// putter for the serving store: paced by tokens released when a request starts
 		wg.Add(1)
 		go func() {
@@ -88,7 +105,7 @@ func racePart(run *vkit.Run) {
 				}
 				started.Add(1)
 				if err := cs.Put(ctx, cloneCert(ch.Raw[k])); err != nil {
-					run.Count("harness_errors", 1)
+					herr(run, "race:6")
 					return
 				}
 				done.Add(1)
@@ -141,7 +158,7 @@ func racePart(run *vkit.Run) {
 							run.Inconclusive("watchdog")
 							return
 						}
-						run.Count("harness_errors", 1)
+						herr(run, "race:7")
 						continue
 					}
 					run.Eval(1)
@@ -184,7 +201,7 @@ func racePart(run *vkit.Run) {
 				}
 				if lr.Intn(3) == 0 {
 					if err := pstore.Put(ctx, cloneCert(ch.Raw[next])); err != nil {
-						run.Count("harness_errors", 1)
+						herr(run, "race:8")
 						return
 					}
 					run.Count("poller_local_puts", 1)
@@ -195,7 +212,12 @@ func racePart(run *vkit.Run) {
 		// the poller itself (single goroutine, as in production)
 		for k := 0; k < 10; k++ {
 			before := poller.NextInstance
-			res, perr := poller.Poll(ctx, hs[0].ID())
+			pctx, pcancel := context.WithCancel(ctx)
+			cut.set(length+10, pcancel) // logical watchdog: every useful round delivers >= 1 certificate
+			res, perr := poller.Poll(pctx, hs[0].ID())
+			fired := cut.wasFired()
+			cut.set(1<<30, nil)
+			pcancel()
 			if ctx.Err() != nil {
 				run.Inconclusive("watchdog")
 				break
@@ -214,14 +236,17 @@ func racePart(run *vkit.Run) {
 			case polling.PollHit, polling.PollMiss:
 			case polling.PollFailed:
 				if poller.NextInstance+serverMax < poller.NextInstance {
-					run.Violation(fmt.Sprintf("poller vs honest server: no progress because the server's first+limit overflows uint64: sent 0 of %d available certificates (race part)", done.Load()-int64(poller.NextInstance-first)), w)
+					run.Violation(fmt.Sprintf("poller vs honest server: no full progress because the server's first+limit overflows uint64: sent 0 of %d available certificates from %d (race part)", done.Load()-int64(poller.NextInstance-first), poller.NextInstance), w)
+					if fired {
+						run.Violation(fmt.Sprintf("poller: Poll keeps re-requesting after a response with 0 deliverable certificates and pending>next once an earlier response delivered some (doc: treat as failure): cut by harness after %d requests (race part, honest server)", cut.max), w)
+					}
 				} else {
 					run.Violation(fmt.Sprintf("poller: status %s against an honest server under concurrent Puts: %v", res.Status, res.Error), w)
 				}
 			default:
 				run.Violation(fmt.Sprintf("poller: status %s against an honest server under concurrent Puts: %v", res.Status, res.Error), w)
 			}
-			if poller.NextInstance < before || poller.NextInstance > first+uint64(started.Load()) && poller.NextInstance > first+uint64(length) {
+			if poller.NextInstance < before || poller.NextInstance > first+uint64(length) {
 				run.Violation(fmt.Sprintf("poller: NextInstance moved from %d to %d outside the chain under concurrent Puts", before, poller.NextInstance), w)
 			}
 		}
@@ -266,5 +291,4 @@ func racePart(run *vkit.Run) {
 			run.Inconclusive("harness-error")
 		}
 	}
-	_ = math.MaxUint64
 }
